@@ -101,7 +101,7 @@ def run(st, tier, seed):
             parts = [[m, "NSW"[i]] for i, m in enumerate(ms)]
             for L in [None] + list(range(0, 9 if tier == "thorough" else 6)):
                 one(parts, L)
-    res.extra["exhaustive"] = "parts<=3, multipliers in {0,1,2,3,?}, L in none,0..%d" % (8 if tier == "thorough" else 5)
+    res.extra["exhaustive_small_space"] = "parts<=3, multipliers in {0,1,2,3,?}, L in none,0..%d" % (8 if tier == "thorough" else 5)
     # random larger
     for _ in range(400 if tier == "quick" else 20000):
         n = rng.randint(0, 8)
